@@ -301,9 +301,13 @@ def run(tier, seed, replay=None):
     codes, err = sc.eval_codes(["Elem", "Equality", "RunEq"], "run_eq_case", cases, tag="c17", shard=120)
     res.corr_error = err
     # code 9 = an equal pair to which the congruence theorem C17_equal_same_verdict applies (EqFrag.goodb on both, proved sound)
-    stats["theorem_applies"] = {"equal_pairs": sum(1 for cs in (codes or {}).values() if 9 in cs), "of_equal_pairs": stats.get("equal_pairs", None)}
-    res.corr_mismatches = [dict(metas[i], codes=[c for c in cs if c != 9], what="Equality.elem_eq disagrees with the implementation's ==")
-                           for i, cs in sorted((codes or {}).items()) if any(c != 9 for c in cs)]
+    # code 10 = an equal pair with object classes to which C17_equal_same_verdict_classes applies (ClsFrag.goodcb on both, proved sound)
+    stats["theorem_applies"] = {"equal_pairs": sum(1 for cs in (codes or {}).values() if 9 in cs or 10 in cs),
+                                "class_free": sum(1 for cs in (codes or {}).values() if 9 in cs),
+                                "with_classes": sum(1 for cs in (codes or {}).values() if 10 in cs and 9 not in cs),
+                                "of_equal_pairs": stats.get("equal_pairs", None)}
+    res.corr_mismatches = [dict(metas[i], codes=[c for c in cs if c not in (9, 10)], what="Equality.elem_eq disagrees with the implementation's ==")
+                           for i, cs in sorted((codes or {}).items()) if any(c not in (9, 10) for c in cs)]
     res.coverage["distribution"] = stats
     res.coverage["traces_validated_against_impl"] = len(cases)
     res.coverage["rule"] = ("pairs of DSL trees: an independently built copy, and single-site mutations (literal look-alikes true/1/1.0, int->float "
